@@ -24,6 +24,7 @@ Steps:
   toClient <c> <beh>                        -> idle | recv <msg> <effects…>
         beh = deferred | obj <V> | seq <self> <n> <V>^n | raised <dbusName|~> <cls> <text>
   resolve <c> <tok> <result>                -> idle | <effects…>          (result = beh without `deferred`)
+  expire <c> <serial>                       -> idle | done(<serial>,timeout)      (the deadline of a pending call passes)
   quiescent                                 -> yes | no
 Effects, in this order: inv(<sender>,<serial>,<path>,<iface>,<member>,[args],<impl id>) exec(<tok>) sent(<msg>)
 done(<serial>,<outcome>).  Outcomes print as the harness sees them: `val,<token>` where the token of
@@ -161,6 +162,7 @@ def showOutcome : Outcome V → String
   | .many vs => "val," ++ "_".intercalate ("L" :: toString vs.length :: vs)
   | .remoteError n t => "remoteError," ++ hs n ++ "," ++ hs t
   | .sigMismatch => "sigMismatch"
+  | .timedOut => "timeout"
 
 def showInv (i : Invocation V) : String :=
   "inv(" ++ no i.sender ++ "," ++ toString i.serial ++ "," ++ hs i.path ++ "," ++ hs i.iface ++ "," ++ hs i.member
@@ -272,6 +274,13 @@ def handle (s : St) (line : String) : St × String :=
       let eff := effects (s.net.cl c) (net'.cl c)
       ({ s with net := net' }, if eff.isEmpty then "idle" else join eff)
     | _, _, _ => bad s "resolve"
+  | ["expire", c, sr] =>
+    match nat? c, nat? sr with
+    | some c, some sr =>
+      let net' := step s.world s.net (.expire c sr)
+      let eff := effects (s.net.cl c) (net'.cl c)
+      ({ s with net := net' }, if eff.isEmpty then "idle" else join eff)
+    | _, _ => bad s "expire"
   | ["quiescent"] =>
     let q := (List.range s.net.n).all (fun j =>
       (s.net.cl j).up.isEmpty && (s.net.cl j).down.isEmpty && (s.net.cl j).exec.isEmpty)
